@@ -465,6 +465,61 @@ func compScenarios(a map[string]string) *compScenario {
 				}
 			},
 		}
+	case "concatgroups":
+		// Concatenator with GroupByTag over a stream that mixes untagged inputs and inputs tagged g=x / g=y
+		tags := strings.Split(a["tags"], ",")
+		if a["tags"] == "" {
+			tags = nil
+		}
+		files := srcItems("in", len(tags))
+		return &compScenario{
+			desc: fmt.Sprintf("concatenator/group-by-tag/tags=%s", a["tags"]),
+			setup: func() {
+				for _, f := range files {
+					os.WriteFile(f, []byte("content of "+f), 0644)
+				}
+			},
+			build: func(wf *sp.Workflow) {
+				s := newTaggedSource(wf, "tsrc", files, tags)
+				c := components.NewConcatenator(wf, "cat", "out/all.txt")
+				c.GroupByTag = "g"
+				c.In().From(s.OutPort("out"))
+				r := newRecorder(wf, "rec")
+				r.InPort("in").From(c.Out())
+			},
+			oracle: func(o *Obs, add func(class, detail string)) {
+				want := map[string]string{"out/all.txt": ""}
+				for i, f := range files {
+					path := "out/all.txt"
+					if tags[i] != "-" {
+						path = "out/all.txt.g_" + tags[i]
+					}
+					want[path] += "content of " + f + "\n"
+				}
+				paths := []string{}
+				for p, w := range want {
+					paths = append(paths, p)
+					if got, ok := o.Tree[p]; !ok {
+						add("concatenator-content", fmt.Sprintf("output %s is missing", p))
+					} else if got != w {
+						add("concatenator-content", fmt.Sprintf("%s holds %q; every input of its group exactly once in arrival order would be %q", p, got, w))
+					}
+				}
+				for p := range o.Tree {
+					if strings.HasPrefix(p, "out/all.txt") && !strings.HasSuffix(p, ".audit.json") && o.Tree[p] != "<dir>" {
+						if _, ok := want[p]; !ok {
+							add("concatenator-content", "unexpected output file "+p)
+						}
+					}
+				}
+				rc := append([]string{}, received(o.Notes)["rec"]...)
+				sort.Strings(rc)
+				sort.Strings(paths)
+				if strings.Join(rc, ",") != strings.Join(paths, ",") {
+					add("concatenator-out", fmt.Sprintf("out-port emitted %v, expected %v", rc, paths))
+				}
+			},
+		}
 	case "sources":
 		k, _ := strconv.Atoi(a["k"])
 		files := srcItems("f", k)
@@ -568,4 +623,31 @@ func lensOf(rc map[string][]string, names []string) []int {
 		r = append(r, len(rc["rec_"+n]))
 	}
 	return r
+}
+
+// taggedSource sends file IPs some of which carry the tag g (tags[i] == "-": untagged).
+type taggedSource struct {
+	sp.BaseProcess
+	files, tags []string
+}
+
+func newTaggedSource(wf *sp.Workflow, name string, files, tags []string) *taggedSource {
+	p := &taggedSource{BaseProcess: sp.NewBaseProcess(wf, name), files: files, tags: tags}
+	p.InitOutPort(p, "out")
+	wf.AddProc(p)
+	return p
+}
+
+func (p *taggedSource) Run() {
+	defer p.CloseAllOutPorts()
+	for i, f := range p.files {
+		ip, err := sp.NewFileIP(f)
+		if err != nil {
+			p.Fail(err)
+		}
+		if p.tags[i] != "-" {
+			ip.AddTag("g", p.tags[i])
+		}
+		p.OutPort("out").Send(ip)
+	}
 }
